@@ -35,6 +35,9 @@ func init() {
 			{ID: "C11.12", Desc: "header dates are decoded leniently everywhere (an obsolete-format Date is not a missing Date)", Run: func(c *Ctx) { ruleDatesThroughTheDecoder(c, "C11.12") }, MinSites: 1},
 			{ID: "C11.13", Desc: "the 304 merge carries the 304's Age (only framing fields are withheld)", Run: func(c *Ctx) { ruleMergeFilter(c, "C11.13") }, MinSites: 1},
 			{ID: "C11.14", Desc: "the times an age is computed from are read with their errors checked", Run: func(c *Ctx) { ruleMetaTimesChecked(c, "C11.14") }, MinSites: 1},
+			{ID: "C11.15", Desc: "the Date an age is computed from survives the hop-by-hop strip (`Connection: Date`)", Run: func(c *Ctx) { ruleDateSurvivesStrip(c, "C11.15") }, MinSites: 1},
+			{ID: "C11.16", Desc: "the hop-by-hop set used for one response is not the shared table (`Connection: Age` of one response does not take the Age out of later ones)", Run: func(c *Ctx) { ruleHopTablePerResponse(c, "C11.16") }, MinSites: 1},
+			{ID: "C11.17", Desc: "the cache's own Age and status fields are written after the origin-named fields were stripped", Run: func(c *Ctx) { ruleOwnFieldsSetLast(c, "C11.17") }, MinSites: 1},
 		},
 	})
 }
